@@ -1,2 +1,179 @@
-(* placeholder *)
-From GY Require Import Model.Number.
+(* C10 — Range and length restrictions denote the written set and only ever narrow.
+   Only statements, closed by [exact], and Print Assumptions (printed by the checker).
+   A range list denotes a set of integers [den r] (decimal64: mantissas at the type's
+   fraction-digits fd); every bound is a Number of 64-bit magnitude at the common precision fd
+   ([okRs fd], fd = 0 for the integer types and for lengths, 1..18 for decimal64).
+   [WF] = every part in order, parts sorted, and consecutive parts separated by a gap
+   (max_i + 1 < min_{i+1}): sorted, disjoint and coalesced. *)
+From Coq Require Import List NArith ZArith Bool Lia Permutation.
+Import ListNotations.
+From GY Require Import Base.Outcome Model.Number Model.Range Spec.C15 Spec.C10 Proofs.NumberProofs Proofs.RangeProofs.
+Local Open Scope Z_scope.
+
+(* at a common precision Less is < on mantissas; max+1 computed by addQuantum is exact except at
+   2^64-1, where it wraps to 0 — and the repaired test in coalesce is still exactly max+1 < min *)
+Theorem C10_less_mantissa : forall fd n m, okN fd n -> okN fd m -> Less n m = (sval n <? sval m).
+Proof. exact Less_sval. Qed.
+Theorem C10_gap_test : forall fd a b, okN fd a -> okN fd b ->
+  (Less a (addQuantum a 1) && Less (addQuantum a 1) b) = (sval a + 1 <? sval b).
+Proof. exact gap_test. Qed.
+
+(* (1) sorting: a permutation, in the lexicographic order on (min, max), same set *)
+Theorem C10_sort : forall fd l, okRs fd l ->
+  Permutation (Sort l) l /\ sorted_lex (Sort l) /\ seteq (den (Sort l)) (den l).
+Proof. exact Sort_spec. Qed.
+
+(* (2) coalescing sorted valid parts gives the sorted, disjoint, coalesced presentation of the same
+   set — for all bounds up to 2^64-1 and down to -(2^64-1) *)
+Theorem C10_coalesce : forall fd r, okRs fd r -> Forall valid r -> lo_sorted r ->
+  WF (coalesce r) /\ okRs fd (coalesce r) /\ seteq (den (coalesce r)) (den r) /\
+  (r <> [] -> coalesce r <> []).
+Proof. exact coalesce_spec. Qed.
+Theorem C10_sorted_is_lo_sorted : forall r, sorted_lex r -> lo_sorted r.
+Proof. exact sorted_lex_lo. Qed.
+
+(* (3) Contains decides the subset relation on WF operands; an empty parent is "unrestricted" *)
+Theorem C10_contains : forall fd y r, okRs fd y -> okRs fd r -> WF y -> WF r -> y <> [] ->
+  (Contains y r = true <-> subset (den r) (den y)).
+Proof. exact Contains_spec. Qed.
+Theorem C10_contains_unrestricted : forall r, Contains [] r = true.
+Proof. exact Contains_nil. Qed.
+
+(* (4) Validate never rejects a WF list *)
+Theorem C10_validate : forall fd r, okRs fd r -> WF r -> Validate r = true.
+Proof. exact Validate_WF. Qed.
+
+(* (5) sort, coalesce, subset check, validate: the result is WF, denotes the union of the parts
+   and lies within the parent; an error is returned exactly when the union leaves the parent's set *)
+Theorem C10_finish : forall fd y parts,
+  okRs fd y -> WF y -> okRs fd parts -> Forall valid parts ->
+  match finish y parts with
+  | Ok r => WF r /\ okRs fd r /\ seteq (den r) (den parts) /\ (parts <> [] -> r <> []) /\
+            (y <> [] -> subset (den r) (den y))
+  | Err => y <> [] /\ ~ subset (den parts) (den y)
+  | _ => False
+  end.
+Proof. exact finish_spec. Qed.
+
+(* the presentation is canonical: two WF lists with the same set have the same bounds *)
+Theorem C10_canonical : forall r q, WF r -> WF q -> seteq (den r) (den q) ->
+  map (fun p => (lo p, hi p)) r = map (fun p => (lo p, hi p)) q.
+Proof. exact WF_unique_bounds. Qed.
+
+(* text level: `min` / `max` are the least / greatest element of the parent's set *)
+Theorem C10_min_keyword : forall fd dec y, okRs fd y -> WF y -> y <> [] ->
+  exists n, parseNumber y dec fd s_min = Ok n /\ okN fd n /\ least y (sval n).
+Proof. exact parseNumber_min. Qed.
+Theorem C10_max_keyword : forall fd dec y, okRs fd y -> WF y -> y <> [] ->
+  exists n, parseNumber y dec fd s_max = Ok n /\ okN fd n /\ greatest y (sval n).
+Proof. exact parseNumber_max. Qed.
+
+(* a part a..b is accepted exactly when its bounds are in order *)
+Theorem C10_part_order : forall fd dec y s a b mn mx, okRs fd y -> (dec = false -> fd = 0) ->
+  split_dotdot [] s = [a; b] ->
+  parseNumber y dec fd (TrimSpace a) = Ok mn -> parseNumber y dec fd (TrimSpace b) = Ok mx ->
+  parsePart y dec fd s = if sval mx <? sval mn then Err else Ok (mn, mx).
+Proof. exact parsePart_two. Qed.
+
+(* the whole of parseChildRanges on every text: never a panic; Ok r => r is the WF presentation of
+   the union of the parsed parts (all with bounds in order), within the parent's set;
+   Err => a part was rejected, or the union is not within the parent's set *)
+Theorem C10_parseChildRanges : forall fd dec y s,
+  okRs fd y -> WF y -> (dec = false -> fd = 0) ->
+  match parseChildRanges y s dec fd with
+  | Ok r => exists parts, parseParts y dec fd (split_on cbar [] s) = Ok parts /\
+            Forall valid parts /\ WF r /\ okRs fd r /\ r <> [] /\ seteq (den r) (den parts) /\
+            (y <> [] -> subset (den r) (den y))
+  | Err => parseParts y dec fd (split_on cbar [] s) = Err \/
+           exists parts, parseParts y dec fd (split_on cbar [] s) = Ok parts /\
+                         y <> [] /\ ~ subset (den parts) (den y)
+  | Panic => False
+  | Unmodelled => parseParts y dec fd (split_on cbar [] s) = Unmodelled
+  end.
+Proof. exact parseChildRanges_spec. Qed.
+
+(* derivation chains: every set reached from a WF non-empty base by any number of restrictions is
+   WF, non-empty and a subset of the base (and, step by step, of its parent) *)
+Theorem C10_chain_narrows : forall fd dec y0 y,
+  okRs fd y0 -> WF y0 -> y0 <> [] -> (dec = false -> fd = 0) ->
+  derived fd dec y0 y ->
+  WF y /\ okRs fd y /\ y <> [] /\ subset (den y) (den y0).
+Proof. exact chain_narrows. Qed.
+
+(* D31: the loop of the pinned commit (addQuantum wrapping at 2^64-1) returns overlapping parts on
+   0..18446744073709551615|18446744073709551615; the repaired loop does not *)
+Theorem C10_coalesce_old_refuted :
+  exists r, okRs 0 r /\ Forall valid r /\ sorted_lex r /\ ~ WF (coalesce_old r) /\ WF (coalesce r).
+Proof. exact coalesce_old_refuted. Qed.
+
+(* ---------- non-vacuity: the bases of the chains, boundaries, zero crossings ---------- *)
+Definition txt (l : list Z) : str := map Z.to_N l.
+Definition I (z : Z) : Number := FromInt z.
+Definition U (z : Z) : Number := FromUint z.
+
+Ltac wf_ok := repeat split; repeat constructor;
+  unfold valid, lo, hi; cbn; pose proof two64_eq; pose proof two63_eq; try lia.
+
+(* "-128..127" with no parent: int8 *)
+Example C10_int8_base :
+  parseChildRanges [] (txt [45;49;50;56;46;46;49;50;55]) false 0 = Ok [(I (-128), I 127)].
+Proof. vm_compute. reflexivity. Qed.
+(* "0..18446744073709551615" with no parent: uint64 and lengths *)
+Example C10_uint64_base :
+  parseChildRanges [] (txt [48;46;46;49;56;52;52;54;55;52;52;48;55;51;55;48;57;53;53;49;54;49;53]) false 0
+  = Ok [(U 0, U (two64 - 1))].
+Proof. vm_compute. reflexivity. Qed.
+(* "-9223372036854775808..9223372036854775807": int64 *)
+Example C10_int64_base :
+  parseChildRanges [] (txt [45;57;50;50;51;51;55;50;48;51;54;56;53;52;55;55;53;56;48;56;46;46;
+                            57;50;50;51;51;55;50;48;51;54;56;53;52;55;55;53;56;48;55]) false 0
+  = Ok [(I (- two63), I (two63 - 1))].
+Proof. vm_compute. reflexivity. Qed.
+
+Example C10_bases_wf :
+  (forall b, In b [[(I (-128), I 127)]; [(I (-32768), I 32767)]; [(I (-2147483648), I 2147483647)];
+                   [(I (- two63), I (two63 - 1))];
+                   [(U 0, U 255)]; [(U 0, U 65535)]; [(U 0, U 4294967295)]; [(U 0, U (two64 - 1))]] ->
+             okRs 0 b /\ WF b /\ b <> []).
+Proof.
+  intros b H. cbn [In] in H.
+  repeat (destruct H as [H|H]; [subst b; split; [|split; [|discriminate]]; wf_ok|]). contradiction.
+Qed.
+
+(* the decimal64 base at every fraction-digits 1..18: mantissas -2^63 .. 2^63-1 *)
+Definition dec_base (fd : Z) : YangRange :=
+  [({| Value := two63; FractionDigits := fd; Negative := true |},
+    {| Value := two63 - 1; FractionDigits := fd; Negative := false |})].
+Example C10_dec_base_wf : forall fd, 1 <= fd <= 18 -> okRs fd (dec_base fd) /\ WF (dec_base fd) /\ dec_base fd <> [].
+Proof. intros fd H. split; [|split; [|discriminate]]; wf_ok. Qed.
+
+(* "min..0|1..max" under uint64: coalesced to the parent itself, including at 2^64-1 *)
+Example C10_uint64_min_max :
+  parseChildRanges [(U 0, U (two64 - 1))] (txt [109;105;110;46;46;48;124;49;46;46;109;97;120]) false 0
+  = Ok [(U 0, U (two64 - 1))].
+Proof. vm_compute. reflexivity. Qed.
+(* "max|0..max" under uint64 (the D31 shape): one part *)
+Example C10_uint64_d31_text :
+  parseChildRanges [(U 0, U (two64 - 1))] (txt [109;97;120;124;48;46;46;109;97;120]) false 0
+  = Ok [(U 0, U (two64 - 1))].
+Proof. vm_compute. reflexivity. Qed.
+(* "-5..-2|-1..0|2..3|4" under int8: adjacent parts merge across zero, the gap at 1 stays *)
+Example C10_zero_crossing :
+  parseChildRanges [(I (-128), I 127)]
+    (txt [45;53;46;46;45;50;124;45;49;46;46;48;124;50;46;46;51;124;52]) false 0
+  = Ok [(I (-5), I 0); (I 2, I 4)].
+Proof. vm_compute. reflexivity. Qed.
+(* "0..256" under uint8 admits a value the parent does not: rejected *)
+Example C10_widening_rejected :
+  parseChildRanges [(U 0, U 255)] (txt [48;46;46;50;53;54]) false 0 = Err.
+Proof. vm_compute. reflexivity. Qed.
+(* "5..1": bounds out of order: rejected *)
+Example C10_out_of_order_rejected :
+  parseChildRanges [(U 0, U 255)] (txt [53;46;46;49]) false 0 = Err.
+Proof. vm_compute. reflexivity. Qed.
+(* "1.5..2.5" at fraction-digits 2 under the decimal64 base: mantissas 150..250 *)
+Example C10_decimal :
+  parseChildRanges (dec_base 2) (txt [49;46;53;46;46;50;46;53]) true 2
+  = Ok [({| Value := 150; FractionDigits := 2; Negative := false |},
+         {| Value := 250; FractionDigits := 2; Negative := false |})].
+Proof. vm_compute. reflexivity. Qed.
